@@ -52,8 +52,11 @@ func clientAll() map[string]string {
 	return m
 }
 
+var jsonPartialNote = "the counterexample uses the JSON model's 'error with a partially filled target' outcome, which the native harness (arbitrary bytes) does not construct"
+
 func ch(name string, params, thorough map[string]int, reach []string, desc string) *HarnessSpec {
-	return &HarnessSpec{Name: name, Pkg: "client/setec", Stubs: clientAll(), Params: params, ThoroughParams: thorough, ExpectReach: reach, Desc: desc}
+	return &HarnessSpec{Name: name, Pkg: "client/setec", Stubs: clientAll(), Params: params, ThoroughParams: thorough, ExpectReach: reach, Desc: desc,
+		ModelOnlyLabels: map[string]string{"undecodable-cache-ignored-as-a-whole": jsonPartialNote, "undecodable-cache-contributes-no-names": jsonPartialNote}}
 }
 
 func init() {
